@@ -1,4 +1,5 @@
 import JenVerif.Heap
+import JenVerif.FileRender
 import JenVerif.Gen.Api
 import JenVerif.Gen.Constructs
 import JenVerif.Gen.Tokens
@@ -100,10 +101,42 @@ theorem funcvariant_eq_variadic (g : GInfo) (xs : List HCode) :
     (HCode.group g ([] ++ xs)) = HCode.group g xs := by simp
 
 /-- rendering never runs user code: no constructor of `Code` carries a function, so `renderS` /
-    `renderP` are functions of first-order data only.  The three render entry points are one
-    function of the model: `GoString`, `Render` and `RenderWithFile(NewFile(""))` all are
-    `fragRender` with the file state `{}`. -/
-theorem render_entrypoints_agree : ({} : FileS).imports = [] ∧ ({} : FileS).path = [] ∧ ({} : FileS).hints = [] := ⟨rfl, rfl, rfl⟩
+    `renderP` are functions of first-order data only.  The render entry points of a Statement or
+    Group are ONE function of the model: `Render(w)` is `RenderWithFile(w, NewFile(""))` by
+    definition, and `GoString()` returns exactly the bytes that `Render` hands to its writer — for
+    every tree, every formatter and every writer (whether or not the writer accepts them) — and
+    succeeds whenever `Render` does. -/
+theorem render_entrypoints_agree (w : World) (cfg : Cfg) (c : Code) :
+    fragRenderFresh w cfg c = fragRender w cfg (Registry.newFile []) c ∧
+    (fragGoString w.gofmt cfg c).2.1 = Effect.written (fragRenderFresh w cfg c).2.1 ∧
+    ((fragRenderFresh w cfg c).1 = .ok → (fragGoString w.gofmt cfg c).1 = .ok) ∧
+    ((fragGoString w.gofmt cfg c).1 = .ok →
+      (fragRenderFresh w cfg c).1 = .ok ∨ (fragRenderFresh w cfg c).1 = .errWriter) := by
+  refine ⟨rfl, ?_, ?_, ?_⟩ <;>
+  · simp only [fragGoString, goStringFrom, fragRenderFresh, fragRender, fileRenderFrom, emit, World.buffered]
+    by_cases hm : Code.misuse (Registry.newFile []).np c = true
+    · simp [hm, Effect.written]
+    · simp only [hm, Bool.false_eq_true, if_false]
+      cases hg : w.gofmt (Code.renderS cfg (Registry.newFile []) none c).1 with
+      | none => simp [Effect.written]
+      | some out => cases hw : w.writer out <;> simp [Effect.written]
+
+/-- the same for a File: `GoString` is `Render` into a buffer -/
+theorem file_gostring_is_render (w : World) (cfg : Cfg) (f : FileS) (body : List Code) :
+    (fileGoString w.gofmt cfg f body).2.1 = Effect.written (fileRender w cfg f body).2.1 ∧
+    (fileGoString w.gofmt cfg f body).2.2 = (fileRender w cfg f body).2.2 ∧
+    ((fileRender w cfg f body).1 = .ok → (fileGoString w.gofmt cfg f body).1 = .ok) := by
+  refine ⟨?_, ?_, ?_⟩ <;>
+  · simp only [fileGoString, goStringFrom, fileRender, fileRenderFrom, emit, World.buffered]
+    by_cases hm : Code.misuse f.np (.group Code.fileInfo body) = true
+    · simp [hm, Effect.written]
+    · simp only [hm, Bool.false_eq_true, if_false]
+      cases hn : f.noFormat
+      · simp only [Bool.false_eq_true, if_false]
+        cases hg : w.gofmt (renderFileRaw cfg f body).1 with
+        | none => simp [Effect.written]
+        | some out => cases hw : w.writer out <;> simp [Effect.written]
+      · cases hw : w.writer (renderFileRaw cfg f body).1 <;> simp [Effect.written]
 
 /-- OBLIGATION: the API entries that take a callback are exactly those whose shape CALLS it
     inside the constructing function (`f(g)`, `f()`, `f(s)`) — checked on the regenerated
